@@ -686,6 +686,18 @@ func (cx *Ctx) axioms(mark int) string {
 		nm := quoteSym(h0.name)
 		fmt.Fprintf(&sb, "(assert (forall ((l Loc)) (! (not (rootIsNew3 (iptr (select %s l)))) :pattern ((select %s l)))))\n", nm, nm)
 	}
+	for _, hn := range sortedKeys(cx.h0) {
+		if !strings.HasPrefix(hn, "M_") || cx.h0pos[hn] >= mark {
+			continue
+		}
+		h0 := cx.h0[hn]
+		inner := arrayValSort(h0.sort)
+		if arrayValSort(inner) != SLoc {
+			continue
+		}
+		nm := quoteSym(h0.name)
+		fmt.Fprintf(&sb, "(assert (forall ((l Loc) (k %s)) (! (not (rootIsNew3 (select (select %s l) k))) :pattern ((select (select %s l) k)))))\n", arrayKeySort(inner), nm, nm)
+	}
 	for _, hn := range sortedKeys(cx.axiomsFor) {
 		h0, ok := cx.h0[hn]
 		if !ok || cx.h0pos[hn] >= mark {
